@@ -40,6 +40,7 @@ func lookupIntrinsic(fn *ssa.Function, name string) intrinsicFunc {
 type mapModel struct {
 	keys, vals []value
 	perm       []int // iteration order chosen for the current key set (all-orders mode)
+	ranges     int   // Range calls so far (syncmap_rotate)
 }
 type ctxObj struct {
 	done     *Chan
@@ -378,6 +379,19 @@ func init() {
 				pk[i], pv[i] = ks[j], vs[j]
 			}
 			ks, vs = pk, pv
+		}
+		if e.params["syncmap_rotate"] != 0 && len(ks) > 1 {
+			// Go does not promise the same order for two iterations of one map: every second Range call of a map
+			// runs in reverse order (two fixed orders instead of all n! per call); natively the order is random,
+			// so a counterexample that depends on it is retried
+			if m.ranges%2 == 1 {
+				for i, j := 0, len(ks)-1; i < j; i, j = i+1, j-1 {
+					ks[i], ks[j] = ks[j], ks[i]
+					vs[i], vs[j] = vs[j], vs[i]
+				}
+				e.schedDec++
+			}
+			m.ranges++
 		}
 		for len(ks) > 0 {
 			i := 0
